@@ -111,6 +111,55 @@ pub fn gen_group_cmd(r: &mut Rng, st: &mut GenSt) -> Vec<Vec<u8>> {
     }
 }
 
+/// scripted sequences for the repaired classes (da451f0, 92eb72a, 3384736): a history read by the owner and by
+/// another consumer with COUNT; SETID backwards, then ">" by another consumer, then XACK / XPENDING / XINFO; a
+/// multi-key XREADGROUP that fails on a later key (NOGROUP, bad ID, WRONGTYPE), then the probes that show
+/// whether the earlier key was served
+fn gen_scenario(r: &mut Rng, st: &mut GenSt) -> Vec<Vec<Vec<u8>>> {
+    let k: &[u8] = if r.chance(2, 3) { b"x1" } else { b"x2" };
+    let g: &[u8] = if r.chance(3, 4) { b"g1" } else { b"g2" };
+    let c1 = pick(r, CONSUMERS); let c2 = pick(r, CONSUMERS);
+    let cnt = |r: &mut Rng, cmd: &mut Vec<Vec<u8>>| { if r.chance(1, 2) { cmd.push(v(b"COUNT")); cmd.push(v(*r.pick(&[&b"1"[..], b"2", b"3", b"0", b"100"]))); } };
+    let mut out = vec![];
+    match r.below(3) {
+        0 => { // own history
+            let mut a = vec![v(b"XREADGROUP"), v(b"GROUP"), v(g), v(c1)]; cnt(r, &mut a); a.extend([v(b"STREAMS"), v(k), v(b">")]); out.push(a);
+            for who in [c1, c2, c1] {
+                let mut a = vec![v(b"XREADGROUP"), v(b"GROUP"), v(g), v(who)]; cnt(r, &mut a);
+                if r.chance(1, 6) { a.push(v(b"NOACK")); }
+                let id = match r.below(4) { 0 => v(b"0"), 1 => v(b"0-0"), _ => recent_id(r, st, k) };
+                a.extend([v(b"STREAMS"), v(k), id]); out.push(a);
+            }
+            out.push(vec![v(b"XPENDING"), v(k), v(g), v(b"-"), v(b"+"), v(b"100")]);
+            out.push(vec![v(b"XINFO"), v(b"CONSUMERS"), v(k), v(g)]);
+        }
+        1 => { // SETID backwards and re-delivery to another consumer
+            let mut a = vec![v(b"XREADGROUP"), v(b"GROUP"), v(g), v(c1)]; cnt(r, &mut a); a.extend([v(b"STREAMS"), v(k), v(b">")]); out.push(a);
+            let id = match r.below(3) { 0 => v(b"0"), 1 => v(b"0-0"), _ => recent_id(r, st, k) };
+            out.push(vec![v(b"XGROUP"), v(b"SETID"), v(k), v(g), id]);
+            let mut a = vec![v(b"XREADGROUP"), v(b"GROUP"), v(g), v(c2)]; cnt(r, &mut a); a.extend([v(b"STREAMS"), v(k), v(b">")]); out.push(a);
+            out.push(vec![v(b"XPENDING"), v(k), v(g)]);
+            out.push(vec![v(b"XPENDING"), v(k), v(g), v(b"-"), v(b"+"), v(b"100"), v(c1)]);
+            out.push(vec![v(b"XPENDING"), v(k), v(g), v(b"-"), v(b"+"), v(b"100"), v(c2)]);
+            let mut a = vec![v(b"XACK"), v(k), v(g)]; for _ in 0..(1 + r.below(3)) { a.push(recent_id(r, st, k)); } out.push(a);
+            out.push(vec![v(b"XPENDING"), v(k), v(g)]);
+            out.push(vec![v(b"XINFO"), v(b"GROUPS"), v(k)]);
+            out.push(vec![v(b"XINFO"), v(b"CONSUMERS"), v(k), v(g)]);
+        }
+        _ => { // a later key fails
+            let (k2, id2): (&[u8], &[u8]) = match r.below(5) { 0 => (STRKEY, b">"), 1 => (b"x2", b"abc"), 2 => (b"x2", b"5-"), 3 => (b"nokey", b">"), _ => (b"x2", b">") };
+            let gg: &[u8] = if r.chance(1, 2) { g } else { b"gonly1" };
+            if gg == b"gonly1" { out.push(vec![v(b"XGROUP"), v(b"CREATE"), v(b"x1"), v(gg), v(b"0")]); }
+            let mut a = vec![v(b"XREADGROUP"), v(b"GROUP"), v(gg), v(c1)]; cnt(r, &mut a);
+            a.extend([v(b"STREAMS"), v(b"x1"), v(k2), v(if r.chance(1, 4) { b"0" } else { b">" }), v(id2)]); out.push(a);
+            out.push(vec![v(b"XPENDING"), v(b"x1"), v(gg)]);
+            out.push(vec![v(b"XINFO"), v(b"GROUPS"), v(b"x1")]);
+            out.push(vec![v(b"XREADGROUP"), v(b"GROUP"), v(gg), v(c1), v(b"STREAMS"), v(b"x1"), v(b">")]);
+        }
+    }
+    out
+}
+
 pub fn gen(seed: u64, n: usize, _tier: &str) -> Vec<Case> {
     let mut r = Rng::new(seed ^ 0x16);
     let mut cases = vec![];
@@ -133,6 +182,7 @@ pub fn gen(seed: u64, n: usize, _tier: &str) -> Vec<Case> {
         let mut sleeps = 0;
         for _ in 0..len {
             if sleeps < 2 && r.chance(1, 60) { ops.push(sleep_op(450)); sleeps += 1; }
+            if r.chance(1, 14) { for c in gen_scenario(&mut r, &mut st) { push_cmd(&mut r, &mut ops, &c); } continue; }
             let c = gen_group_cmd(&mut r, &mut st);
             push_cmd(&mut r, &mut ops, &c);
         }
@@ -161,16 +211,15 @@ fn bulks(req: &V) -> Option<Vec<Vec<u8>>> {
 }
 #[derive(Default, Clone)]
 struct RefGroup {
-    start: Id,                       // entries with id <= start must not be delivered by ">"
-    delivered: BTreeSet<Id>,         // through ">"
+    start: Id,                       // entries with id <= start must not be delivered by ">" (moved by SETID)
+    cursor: Id,                      // last-delivered-id: start, then the last ID delivered through ">"
+    delivered: BTreeSet<Id>,         // through ">" since the last SETID
     pending: BTreeMap<Id, Vec<u8>>,  // id -> owner
     consumers: BTreeSet<Vec<u8>>,
-    noack: bool, setid: bool, reread: bool, uncertain: bool,
+    noack: bool, uncertain: bool,
 }
 impl RefGroup {
-    fn class(&self) -> &'static str {
-        if self.reread { "class=explicit-id-reread " } else if self.setid { "class=setid-redelivery " } else { "" }
-    }
+    fn class(&self) -> &'static str { "" }
 }
 #[derive(Default, Clone)]
 struct RefKey { ids: BTreeSet<Id>, groups: HashMap<Vec<u8>, RefGroup>, known: bool }
@@ -187,9 +236,8 @@ pub fn judge(c: &Case, outs: &[Vec<Tok>]) -> Vec<String> {
         let rep = match V::dec(out, &mut p2) { Some(r) => r, None => continue };
         let a = match bulks(&req) { Some(a) if !a.is_empty() => a, _ => {
             // a non-bulk argument: the reference cannot follow what the command did
-            // (a multi-key XREADGROUP may have served earlier keys before failing: class xreadgroup-partial-failure)
-            let is_rg = matches!(&req, V::Array(l) if matches!(l.first(), Some(V::Bulk(b)) if b.eq_ignore_ascii_case(b"XREADGROUP")));
-            if is_rg || !matches!(rep, V::Error(_)) { for e in db.values_mut() { e.known = false; for g in e.groups.values_mut() { g.uncertain = true; } } }
+            // (an XREADGROUP that answers an error has delivered nothing, 3384736)
+            if !matches!(rep, V::Error(_)) { for e in db.values_mut() { e.known = false; for g in e.groups.values_mut() { g.uncertain = true; } } }
             continue } };
         let name = a[0].to_ascii_uppercase();
         let up = |x: &Vec<u8>| x.to_ascii_uppercase();
@@ -207,7 +255,7 @@ pub fn judge(c: &Case, outs: &[Vec<Tok>]) -> Vec<String> {
                         if let V::Simple(_) = &rep {
                             let e = db.entry(a[2].clone()).or_insert_with(|| RefKey { known: true, ..Default::default() });
                             let start = if a[4] == b"$" { e.ids.iter().next_back().cloned().unwrap_or((0, 0)) } else if a[4] == b"0" { (0, 0) } else { pid(&a[4]).unwrap_or((0, 0)) };
-                            let mut g = RefGroup::default(); g.start = start; g.uncertain = !e.known;
+                            let mut g = RefGroup::default(); g.start = start; g.cursor = start; g.uncertain = !e.known;
                             e.groups.insert(a[3].clone(), g);
                         }
                     }
@@ -216,9 +264,9 @@ pub fn judge(c: &Case, outs: &[Vec<Tok>]) -> Vec<String> {
                         // the cursor moves to the given position: entries above it may (again) be delivered
                         let top = db.get(&a[2]).and_then(|e| e.ids.iter().next_back().cloned()).unwrap_or((0, 0));
                         if let (V::Simple(_), Some(g)) = (&rep, db.get_mut(&a[2]).and_then(|e| e.groups.get_mut(&a[3]))) {
-                            g.setid = true;
+                            if a[4] != b"$" && pid(&a[4]).is_none() { fail("XGROUP SETID accepted a text that is not an ID".to_string()); }
                             let ns = if a[4] == b"$" { top } else { pid(&a[4]).unwrap_or((0, 0)) };
-                            g.start = ns; g.delivered.retain(|i| *i <= ns);
+                            g.start = ns; g.cursor = ns; g.delivered.retain(|i| *i <= ns);
                         }
                     }
                     b"CREATECONSUMER" if a.len() == 5 => { if let (V::Int(n), Some(g)) = (&rep, db.get_mut(&a[2]).and_then(|e| e.groups.get_mut(&a[3]))) {
@@ -234,40 +282,64 @@ pub fn judge(c: &Case, outs: &[Vec<Tok>]) -> Vec<String> {
             }
             b"XREADGROUP" if a.len() >= 7 && up(&a[1]) == b"GROUP" => {
                 let (gn, cn) = (a[2].clone(), a[3].clone());
-                let noack = a[4..].iter().any(|x| up(x) == b"NOACK");
                 let sp = match a.iter().position(|x| up(x) == b"STREAMS") { Some(p) => p, None => continue };
+                let noack = a[4..sp].iter().any(|x| up(x) == b"NOACK");
+                // COUNT n: None = no limit; Some(None) = a count this oracle cannot read (no exact check)
+                let count: Option<Option<usize>> = a[4..sp].iter().position(|x| up(x) == b"COUNT").map(|p| a[4..sp].get(p + 1).and_then(|t| std::str::from_utf8(t).ok()).and_then(|t| t.parse::<usize>().ok()));
                 let rest = &a[sp + 1..]; if rest.is_empty() || rest.len() % 2 != 0 { continue; }
                 let nk = rest.len() / 2;
-                // the same key twice, or an error after earlier keys were served (their entries are
-                // already pending: class xreadgroup-partial-failure): the oracle loses track
+                // an error: nothing was delivered from any key (failure atomicity, 3384736) - the reference does not move,
+                // and the probes that follow (XPENDING, XINFO, the next ">") are judged against the unchanged reference
+                if matches!(rep, V::Error(_)) { continue; }
+                // the same key twice: the oracle loses track
                 let dup = (0..nk).any(|i| (0..i).any(|j| rest[i] == rest[j]));
-                if dup || (nk > 1 && matches!(rep, V::Error(_))) {
-                    for j in 0..nk { if let Some(g) = db.get_mut(&rest[j]).and_then(|e| e.groups.get_mut(&gn)) { g.uncertain = true; } }
-                    continue;
-                }
-                if let V::Array(streams) = &rep {
-                    for st in streams {
-                        let (key, entries) = match st { V::Array(p) if p.len() == 2 => match (&p[0], &p[1]) { (V::Bulk(kb), V::Array(es)) => (kb.clone(), es.clone()), _ => continue }, _ => continue };
-                        let idarg = match (0..nk).find(|j| rest[*j] == key) { Some(j) => rest[nk + j].clone(), None => continue };
-                        let ids: Vec<Id> = entries.iter().filter_map(|e| match e { V::Array(p) if p.len() == 2 => match &p[0] { V::Bulk(b) => pid(b), _ => None }, _ => None }).collect();
-                        let g = match db.get_mut(&key).and_then(|e| e.groups.get_mut(&gn)) { Some(g) => g, None => continue };
-                        if !noack { g.consumers.insert(cn.clone()); }   // add_pending registers the reader
-                        if idarg == b">" {
-                            let mut prev: Option<Id> = None;
-                            for i in &ids {
-                                if prev.map_or(false, |p| *i <= p) { fail(format!("{}> delivered IDs out of order", g.class())); }
-                                prev = Some(*i);
-                                if g.delivered.contains(i) { fail(format!("{}entry {:?} delivered a second time through >", if g.class().is_empty() && g.noack { "class=noack-no-advance " } else { g.class() }, i)); }
-                                else if *i <= g.start && !g.uncertain { fail(format!("class=group-start-ignored entry {:?} at or before the group's start position {:?} delivered", i, g.start)); }
-                                g.delivered.insert(*i);
-                                if !noack { g.pending.insert(*i, cn.clone()); }
-                            }
-                            if noack { g.noack = true; }
-                        } else {
-                            // history read: must return only entries pending for this consumer
-                            for i in &ids { if g.pending.get(i) != Some(&cn) { g.reread = true; fail(format!("class=explicit-id-reread read with ID {} returned {:?}, which is not pending for the reader", String::from_utf8_lossy(&idarg), i)); break; } }
-                            if !ids.is_empty() && !noack { g.reread = true; }
+                if dup { for j in 0..nk { if let Some(g) = db.get_mut(&rest[j]).and_then(|e| e.groups.get_mut(&gn)) { g.uncertain = true; } } continue; }
+                let streams: Vec<V> = match &rep { V::Array(l) => l.clone(), _ => vec![] };
+                for j in 0..nk {
+                    let key = rest[j].clone(); let idarg = rest[nk + j].clone();
+                    let got: Vec<Id> = streams.iter().find_map(|st| match st { V::Array(p) if p.len() == 2 => match (&p[0], &p[1]) {
+                        (V::Bulk(kb), V::Array(es)) if *kb == key => Some(es.iter().filter_map(|e| match e { V::Array(p) if p.len() == 2 => match &p[0] { V::Bulk(b) => pid(b), _ => None }, _ => None }).collect()), _ => None }, _ => None }).unwrap_or_default();
+                    let (ids_now, known): (BTreeSet<Id>, bool) = match db.get(&key) { Some(e) => (e.ids.clone(), e.known), None => {
+                        // Redis answers NOGROUP for a key that does not exist; this server skips it silently
+                        fail(format!("class=xreadgroup-missing-key XREADGROUP on the missing key {:?} answered without an error", String::from_utf8_lossy(&key)));
+                        continue } };
+                    let g = match db.get_mut(&key).and_then(|e| e.groups.get_mut(&gn)) { Some(g) => g, None => continue };
+                    // COUNT 0 = no limit (Redis); this server returns nothing then: class xreadgroup-count-zero
+                    let limit = |v: Vec<Id>| -> Vec<Id> { match count { Some(Some(n)) if n > 0 => v.into_iter().take(n).collect(), _ => v } };
+                    let exact = known && !g.uncertain && count != Some(None);
+                    // the ID u64::MAX-u64::MAX is the handler's internal marker for ">": it reads new entries instead of
+                    // the (necessarily empty) history after the greatest ID
+                    let marker = pid(&idarg) == Some((u64::MAX, u64::MAX));
+                    if marker && !got.is_empty() { fail(format!("class=xreadgroup-max-id-marker read with ID {} returned {:?}: nothing can be pending above the greatest ID", String::from_utf8_lossy(&idarg), got)); }
+                    if idarg == b">" || marker {
+                        let want = limit(ids_now.iter().filter(|i| **i > g.cursor).cloned().collect());
+                        if exact && !marker && got != want {
+                            let class = if count == Some(Some(0)) && got.is_empty() { "class=xreadgroup-count-zero " } else { "" };
+                            fail(format!("{}> returned {:?}; the entries above the cursor {:?} are {:?}", class, got, g.cursor, want));
                         }
+                        let mut prev: Option<Id> = None;
+                        for i in &got {
+                            if prev.map_or(false, |p| *i <= p) { fail("> delivered IDs out of order".to_string()); }
+                            prev = Some(*i);
+                            if g.delivered.contains(i) { fail(format!("{}entry {:?} delivered a second time through >", if g.noack { "class=noack-no-advance " } else { "" }, i)); }
+                            else if *i <= g.start && !g.uncertain { fail(format!("class=group-start-ignored entry {:?} at or before the group's start position {:?} delivered", i, g.start)); }
+                            g.delivered.insert(*i);
+                            if !noack { g.pending.insert(*i, cn.clone()); }     // whoever owned it before (re-delivery after SETID)
+                            if *i > g.cursor { g.cursor = *i; }
+                        }
+                        if !got.is_empty() { if noack { g.noack = true; } else { g.consumers.insert(cn.clone()); } }
+                    } else {
+                        // history read: exactly the reader's own pending entries above the ID that are still in the
+                        // stream, in ID order, COUNT honoured; nothing becomes pending, the cursor does not move
+                        let after = if idarg == b"0" || idarg == b"0-0" { Some((0, 0)) } else { pid(&idarg) };
+                        let after = match after { Some(x) => x, None => { fail(format!("XREADGROUP accepted the ID text {:?}", String::from_utf8_lossy(&idarg))); g.uncertain = true; continue } };
+                        let want = limit(g.pending.iter().filter(|(i, o)| **i > after && **o == cn).map(|(i, _)| *i).collect());
+                        let want: Vec<Id> = want.into_iter().filter(|i| ids_now.contains(i)).collect();
+                        if exact && got != want {
+                            let class = if count == Some(Some(0)) && got.is_empty() { "class=xreadgroup-count-zero " } else { "" };
+                            fail(format!("{}read with ID {} by {:?} returned {:?}; its pending entries above the ID are {:?}", class, String::from_utf8_lossy(&idarg), String::from_utf8_lossy(&cn), got, want));
+                        }
+                        g.consumers.insert(cn.clone());     // the reader is registered as a consumer
                     }
                 }
             }
@@ -277,7 +349,7 @@ pub fn judge(c: &Case, outs: &[Vec<Tok>]) -> Vec<String> {
                     if let Some(ids) = ids {
                         let mut cnt = 0; for i in ids { if g.pending.remove(&i).is_some() { cnt += 1; } }
                         if !g.uncertain && cnt != *n { fail(format!("{}XACK answered {} but {} listed IDs were pending", g.class(), n, cnt)); }
-                    } else { g.uncertain = true; }
+                    } else { fail("XACK accepted a text that is not an ID".to_string()); g.uncertain = true; }
                 }
             }
             b"XCLAIM" if a.len() >= 6 => {
@@ -307,6 +379,25 @@ pub fn judge(c: &Case, outs: &[Vec<Tok>]) -> Vec<String> {
                         fail(format!("{}XPENDING reports total {} bounds {:?}..{:?} consumers {:?}; the pending set has {} entries, bounds {:?}..{:?}, consumers {:?}", g.class(), total, b2i(&l[1]), b2i(&l[2]),
                             got.iter().map(|(k, v)| (String::from_utf8_lossy(k).to_string(), *v)).collect::<Vec<_>>(), g.pending.len(), lo, hi,
                             want.iter().map(|(k, v)| (String::from_utf8_lossy(k).to_string(), *v)).collect::<Vec<_>>()));
+                    }
+                }
+            }
+            b"XPENDING" if a.len() == 6 || a.len() == 7 => {
+                // extended form: the pending entries with start <= id <= end (of that consumer), first COUNT, in ID order
+                if let (V::Array(rows), Some(g)) = (&rep, db.get(&a[1]).and_then(|e| e.groups.get(&a[2]))) {
+                    if g.uncertain { continue; }
+                    let st = if a[3] == b"-" { Some((0, 0)) } else { pid(&a[3]) };
+                    let en = if a[4] == b"+" { Some((u64::MAX, u64::MAX)) } else { pid(&a[4]) };
+                    let cnt: usize = match std::str::from_utf8(&a[5]).ok().and_then(|t| t.parse().ok()) { Some(n) => n, None => continue };
+                    let (st, en) = match (st, en) { (Some(x), Some(y)) => (x, y), _ => continue };   // the handler reads a bad bound as open
+                    let want: Vec<(Id, Vec<u8>)> = g.pending.iter().filter(|(i, o)| st <= **i && **i <= en && (a.len() == 6 || **o == a[6])).map(|(i, o)| (*i, o.clone())).take(cnt).collect();
+                    let got: Vec<(Id, Vec<u8>)> = rows.iter().filter_map(|r| match r { V::Array(p) if p.len() == 4 => match (&p[0], &p[1]) { (V::Bulk(i), V::Bulk(o)) => pid(i).map(|i| (i, o.clone())), _ => None }, _ => None }).collect();
+                    if got != want {
+                        // with a consumer name the handler lists that consumer's entries and ignores the range
+                        let all_of: Vec<(Id, Vec<u8>)> = g.pending.iter().filter(|(_, o)| a.len() == 7 && **o == a[6]).map(|(i, o)| (*i, o.clone())).collect();
+                        let mut g2 = got.clone(); g2.sort();
+                        let class = if a.len() == 7 && g2.iter().all(|x| all_of.contains(x)) && g2.len() == all_of.len().min(cnt) { "class=xpending-consumer-range " } else { "" };
+                        fail(format!("{}XPENDING {:?}..{:?} count {} listed {:?}; the pending entries in the range are {:?}", class, st, en, cnt, got, want));
                     }
                 }
             }
